@@ -212,4 +212,13 @@ func (box *boxTracker) compactRules(rules []css_ast.Rule, keyRange logger.Range,
 		KeyRange:  keyRange,
 		Important: box.important,
 	}}
+
+	// All sides now live in the combined declaration. Without this, a later
+	// declaration for a single side would remove "the previous declaration
+	// for that side", which is now the combined declaration for all sides
+	// (e.g. "margin: 1px; margin-top: 2px; margin-bottom: 1vw; margin-top: 3px").
+	for i := range box.sides {
+		box.sides[i].ruleIndex = lastIndex
+		box.sides[i].wasSingleRule = false
+	}
 }
